@@ -8,6 +8,7 @@ mod mddrun;
 mod solve;
 mod sched;
 mod kp;
+mod misp;
 
 use std::io::{BufRead, Write};
 
@@ -36,6 +37,7 @@ fn main() {
         "solve" => solve::run(&lines, &mut out),
         "par" => sched::run(&lines, &mut out),
         "kp" => kp::run(&lines, &mut out),
+        "misp" => misp::run(&lines, &mut out),
         _ => { eprintln!("unknown command {cmd}"); std::process::exit(2); }
     }
     out.flush().unwrap();
